@@ -29,6 +29,10 @@ fn later_frames(a: u32) -> Vec<frames::Frame> {
         frames::df4(a, frames::ac13_for_alt(31000)),
         frames::df5(a, frames::id13_for_squawk(4521)),
         frames::df17(5, a, frames::me_ident(4, 3, frames::callsign_codes("REG"))),
+        frames::df17(5, a, frames::me_surfpos(7, 1, 0, 0, 0, 0, 93006, 51380)),
+        frames::df17(5, a, frames::me_ident(4, 5, frames::callsign_codes("OTHER1"))),
+        frames::df17(5, a, frames::me_surfpos(6, 0, 1, 64, 0, 1, 93010, 51390)),
+        frames::df17(5, a, frames::me_ident(3, 1, frames::callsign_codes("OTHER2"))),
         frames::df17(0, a, frames::me_tc31(2)),
         frames::df20(a, frames::ac13_for_alt(7000), frames::mb_bds17(0xFFFFFF)),
         frames::df21(a, frames::id13_for_squawk(1000), 0x20_04D3_0C30_C30C),
